@@ -42,7 +42,7 @@ fn main() {
             observed += 1;
             // A was (possibly) woken at ~400 ms for a request it did not get: it must still honour its timeout
             if a_elapsed < timeout - Duration::from_millis(60) { bad.push(format!("recv_timeout({:?}) came back empty-handed after {:?} although every request went to another receiver", timeout, a_elapsed)); }
-            if a_elapsed > timeout * 2 + Duration::from_millis(300) { bad.push(format!("recv_timeout({:?}) took {:?}", timeout, a_elapsed)); }
+            if a_elapsed > timeout * 3 + Duration::from_millis(1000) { bad.push(format!("recv_timeout({:?}) took {:?}", timeout, a_elapsed)); }
         }
         if observed >= 2 || !bad.is_empty() { break; }
     }
